@@ -70,9 +70,12 @@ def run(ctx):
         raise Inconclusive("%d scenarios, %d traces" % (len(scen), len(traces)))
     traces = ctx.drop_dead(traces)
     nsub = sum(1 for t in traces for e in t["events"] if e.get("event") == "Result")
+    if not traces:
+        raise Inconclusive("every scenario died in the driver")
     ctx.sample({"scenario_id": traces[0]["id"], "events": traces[0]["events"][:8]})
-    g = [t for t in traces if t["id"].startswith("gate")][0]
-    ctx.sample({"scenario": g["scenario"], "events": g["events"]})
+    gs = [t for t in traces if t["id"].startswith("gate") and not any(e.get("event") == "Skipped" for e in t["events"])]
+    if gs:
+        ctx.sample({"scenario": gs[0]["scenario"], "events": gs[0]["events"]})
     rejected = ctx.validate("Obfs4ReplayTrace", "Obfs4ReplayTrace.cfg", traces, label="trace validation", timeout=1800, max_rejects=6)
     ctx.log("%d bridges, %d handshake submissions, %d rejected" % (len(traces), nsub, len(rejected)))
 
